@@ -51,7 +51,13 @@ def build(case):
     n = gen.size(f)
     par = gen.parents(f)
     # a tree with an id hook that computes the default rule: lookups must behave exactly the same
-    if case.get("ext"):
+    typed = bool(case.get("typed"))
+    kind = (lambda i: "kab"[i % 3]) if typed else None  # siblings of interleaved kinds: searches are kind-blind
+    if typed:
+        from nutree.typed_tree import TypedTree
+
+        t = gen.ext_classes()["XTypedTree"]("t") if case.get("ext") else TypedTree("t")
+    elif case.get("ext"):
         # a node class of its own: always falsy, and a `name` that differs from str(data) - pattern searches match the *name*
         t = gen.ext_classes()["XTree"]("t")
     else:
@@ -59,7 +65,7 @@ def build(case):
     fl = case["flavour"]
     if fl == "str":
         labs = gen.clone_labeling(rng, f, STR_ALPH) or [f"n{i}" for i in range(n)]
-        nodes = gen.build(t, f, lambda i: labs[i])
+        nodes = gen.build(t, f, lambda i: labs[i], kind=kind)
     elif fl == "int":
         # -1 and 2**61+5 are ints whose default id differs from the value (hash(-1) == -2, hash(2**61+5) == 6)
         labs = gen.clone_labeling(rng, f, [1, 2, 3, 4, 5, -1, 2**61 + 5]) or list(range(100, 100 + n))
@@ -73,6 +79,8 @@ def build(case):
                 i = cnt[0]
                 cnt[0] += 1
                 kw = {"node_id": nids[i]} if rng.random() < 0.6 else {}
+                if typed:
+                    kw["kind"] = kind(i)
                 nd = parent.add(labs[i], **kw)
                 nodes.append(nd)
                 rec(nd, k)
@@ -94,7 +102,7 @@ def build(case):
             labs.append(lab)
             ids.append(eff)
         expl = [None if ids[i] == hash(labs[i]) else ids[i] for i in range(n)]
-        nodes = gen.build(t, f, lambda i: labs[i], data_id=lambda i: expl[i])
+        nodes = gen.build(t, f, lambda i: labs[i], data_id=lambda i: expl[i], kind=kind)
     if case.get("prelude"):
         nodes = prelude(t, nodes, rng)
     return t, nodes
@@ -134,8 +142,8 @@ def prelude(t, nodes, rng):
                             lambda: n.add(other, deep=True, data_id="ghost-id"),
                             lambda: t.add("ghost-b", node_id=n.node_id),
                             lambda: n.add(n.children[0].data if n.children else "ghost-c", before="garbage")])()
-        except (TreeError, ValueError, NotImplementedError, AssertionError, TypeError):
-            pass
+        except (TreeError, ValueError, NotImplementedError, AssertionError, TypeError, AttributeError):
+            pass  # (AttributeError: a typed tree's refusal of a used node_id fails while formatting its message)
     out = []
 
     def rec(h):
@@ -441,6 +449,8 @@ def run_shard(spec, res):
                         run_case({"f": gen.code(f), "flavour": fl, "seed": seed, "hook": True}, res)
                     if n >= 2 and k % 2 == 0:
                         run_case({"f": gen.code(f), "flavour": fl, "seed": seed, "ext": True, "prelude": k % 4 == 0}, res)
+                    if n >= 2 and k % 3 == 0:
+                        run_case({"f": gen.code(f), "flavour": fl, "seed": seed, "typed": True, "ext": k % 2 == 0, "prelude": k % 4 == 1}, res)
                 if res.expired():
                     res.count("exhaustive_cut")
                     res.inconc("enumeration cut by time budget")
@@ -450,7 +460,7 @@ def run_shard(spec, res):
         for j in range(spec["count"]):
             f = gen.random_forest(rng, rng.randint(6, 16))
             run_case({"f": gen.code(f), "flavour": rng.choice(FLAVOURS), "seed": rng.randrange(10**6), "prelude": rng.random() < 0.5, "hook": rng.random() < 0.3,
-                      "ext": rng.random() < 0.3}, res)
+                      "ext": rng.random() < 0.3, "typed": rng.random() < 0.25}, res)
             if res.expired():
                 break
 
